@@ -26,6 +26,10 @@ func quote(content bytes.Bytes, position bytes.Index) string {
 	}
 	if end-begin > maxLength {
 		end = begin + maxLength - 3
+		// Don't cut a multi-byte UTF-8 character in the middle.
+		for end > begin && content.Byte(end)&0xC0 == 0x80 {
+			end--
+		}
 		return content.Sub(begin, end).TrimSpacesFromLeft().String() + "..."
 	}
 	return content.Sub(begin, end).TrimSpacesFromLeft().String()
